@@ -44,6 +44,10 @@ class Ctx:
             if b['def_kind'] == 'Fn' and len([x for x in b['blocks'] if not x['cleanup']]) == 1 and \
                     all(x['term']['k'] != 'call' for x in b['blocks']):
                 self.pure.discard(k)
+            # argument-less helpers name a constant or a "now - C" style expression: what they compute matters to the
+            # rules (age limits, permission bits), and there is nothing to gain from summarising them
+            if b['def_kind'] == 'Fn' and b['arg_count'] == 0 and not [c for c in self.cg.local_edges.get(k, ()) if c in self.B and self.B[c]['def_kind'] != 'Closure']:
+                self.pure.discard(k)
         # field getters (`fn x(&self) -> &T / Option<&T>`, a few blocks, no local callee): looked through, so that what
         # is known about the field is known about the getter's result
         for k in list(self.pure):
